@@ -173,8 +173,14 @@ static std::string dump(State& s) {
     if (!col_in_range(s, j)) { os << "A"; continue; }
     try {
       const Col& c = m.get_column(j);
+      // the default-length read first (it relies on the stored pivot, before any other read can tidy the column up);
+      // it must be the explicit-length content cut after the last non-zero entry
+      auto dflt = c.get_content();
       auto v = c.get_content((int)s.NR);
+      bool dflt_ok = dflt.size() <= v.size();
+      for (size_t i = 0; dflt_ok && i < v.size(); ++i) dflt_ok = (i < dflt.size()) ? (dflt[i] == v[i]) : (v[i] == 0);
       for (size_t i = 0; i < v.size(); ++i) os << (i ? "," : "") << (unsigned)v[i];
+      if (!dflt_ok) os << "!default-length-get_content-differs";
       os << "/" << (m.is_zero_column(j) ? 1 : 0) << "/";
       for (unsigned r = 0; r < s.NR; ++r) {
         os << (m.is_zero_entry(j, r) ? 1 : 0);
